@@ -117,6 +117,17 @@ def audit(modules, theorems, timeout=1200):
         for t in theorems:
             if res[t]["ok"] and "error" in out:
                 pass
+    missing = [t for t in theorems if not res[t]["ok"] and "missing" in res[t]["msg"]]
+    if missing and len(modules) > 1:
+        # one module that no longer builds makes the combined import fail and hides every theorem: audit the theorems of
+        # each module (by name prefix) separately, so that only the obligations of the broken module are reported broken
+        for m in sorted(modules, key=len, reverse=True):
+            mine = [t for t in missing if t.startswith(m + ".")]
+            missing = [t for t in missing if t not in mine]
+            if mine:
+                sub, sub_out = audit([m], mine, timeout)
+                res.update(sub)
+                out += sub_out
     return res, out
 
 
